@@ -43,7 +43,7 @@ Write == /\ pc = "write"
          /\ pc' = "retw"
          /\ UNCHANGED <<n, hit, op, i, nops>>
 RetW == /\ pc = "retw"
-        /\ Feed([e |-> "ret", src |-> 0])
+        /\ Feed([e |-> "ret", src |-> 0, empty |-> TRUE])
         /\ pc' = "begin"
         /\ UNCHANGED <<n, hit, op, i, nops>>
 
@@ -52,11 +52,11 @@ Loop == /\ pc = "loop"
         /\ IF i <= n
              THEN /\ Feed([e |-> "consult", i |-> i, m |-> op, a |-> "same-args", hit |-> hit[i]])
                   /\ IF hit[i] THEN pc' = "rethit" /\ i' = i ELSE pc' = "loop" /\ i' = i + 1
-             ELSE /\ Feed([e |-> "ret", src |-> 0])
+             ELSE /\ Feed([e |-> "ret", src |-> 0, empty |-> TRUE])
                   /\ pc' = "begin" /\ i' = i
         /\ UNCHANGED <<n, hit, op, nops>>
 RetHit == /\ pc = "rethit"
-          /\ Feed([e |-> "ret", src |-> i])
+          /\ Feed([e |-> "ret", src |-> i, empty |-> FALSE])
           /\ pc' = "begin"
           /\ UNCHANGED <<n, hit, op, i, nops>>
 
